@@ -186,6 +186,9 @@ def random_traces(ctx, tier, seed):
         ml.Layout([F(0), F(1, 2), F(3, 2)], [F(0), F(1), F(3), F(4)], True, 14),
         ml.Layout([F(0), F(1)], [F(0), F(1, 3), F(1), F(2)], True, 14),
         ml.Layout.uniform(1, 6, True, 14),
+        # time slabs of very different lengths (a leaf of the long slab is longer than a coarser leaf of the short one)
+        ml.Layout([F(0), F(1, 8), F(17, 8)], [F(0), F(1), F(2)], False, 14),
+        ml.Layout([F(0), F(2), F(33, 16)], [F(0), F(1), F(2), F(3)], True, 14),
     ]
     total = graded = toobig = knife = 0
     stats, samples = [], []
@@ -272,6 +275,41 @@ INVARIANT NoErr
 """
 
 
+def deep_anisotropy(ctx, quick):
+    """a corner leaf bisected many times in one direction only: grading needs more than a dozen sweeps and ends with tens of
+    thousands of leaves, all of which must lie inside the window (judged by the window clause alone)"""
+    lay = ml.Layout.uniform(1, 1, False, 15)
+    out = []
+    for ax, n, sigma in (((1, 7, 2), (0, 14, 1)) if not quick else ((1, 7, 2),)):
+        mesh = lay.new_mesh()
+        ops = []
+        for _ in range(n):
+            k = [q for q in ml.project(mesh, lay) if q[0] == 0 and q[2] == 0][0]
+            op = ("bisect", k, ax)
+            ml.apply_op(mesh, lay, op)
+            ops.append(op)
+        pre = rm.reset_event(mesh, lay, False)
+        consts = grade_consts(lay, sigma)
+        ev = {"k": "grade", "exc": "", "big": True}
+        try:
+            ml.apply_op(mesh, lay, ("grade", sigma))
+            ev["post"] = [list(k) for k in ml.project(mesh, lay)]
+        except Exception as ex:
+            ev["exc"] = rm.exc_text(ex)
+            ev["post"] = []
+        ev.update(consts)
+        bad, jres = rm.judge(lay, [pre, ev], timeout=2400)
+        st = {"history": "%d bisections of the corner leaf along axis %d, sigma %g" % (n, ax, sigma), "graded_leaves": len(ev["post"]), "judge_tlc": jres.stats()}
+        if jres.machinery_error:
+            ctx.machinery_error("deep anisotropy judge: " + jres.machinery_error)
+        else:
+            for l, clause in bad:
+                _report(ctx, clause, "deep-anisotropy-ax%d-n%d" % (ax, n), {"layout": [1, 1, False], "maxl": 15, "sigma": sigma, "ops": [list(o) for o in ops] + [["grade", sigma]]},
+                        ev["exc"])
+        out.append(st)
+    return out
+
+
 def defect_model(ctx):
     """The loop as originally written (GradeSkip = FALSE) aborts from a recorded mesh; the repaired loop does not."""
     path = os.path.join(ROOT, "findings", "C19-grading-assert", "seed_mesh.json")
@@ -311,6 +349,8 @@ def run(prop, tier, seed):
                                       ("MildSingular", "LShape", 0, "isotropic", "sobolev", 1, 2 if quick_ else 3, 0, 0, 0.9, 1.5)],
                                 {"grade"}, C19_CLAUSES)
     ctx.log("driver %s" % drv)
+    deep = deep_anisotropy(ctx, quick_)
+    ctx.log("deep anisotropy %s" % deep)
     ctx.log("traces %s" % {k: v for k, v in tr.items() if k != "per_layout"})
     dm = defect_model(ctx)
     ctx.log("defect model %s" % dm)
@@ -318,7 +358,7 @@ def run(prop, tier, seed):
         "states": sum(s["tlc"]["distinct"] for s in ex_stats), "transitions": sum(s["tlc"]["generated"] for s in ex_stats),
         "traces_validated_against_impl": sum(s.get("judged_graded_meshes", 0) for s in ex_stats) + tr["graded_meshes"],
         "samples": tr["samples"] or [ex_stats[0]],
-        "exhaustive": True, "exhaustive_runs": ex_stats, "random_traces": tr, "defect_model": dm, "driver_runs": drv,
+        "exhaustive": True, "exhaustive_runs": ex_stats, "random_traces": tr, "defect_model": dm, "driver_runs": drv, "deep_anisotropy": deep,
         "rule": "refine_grading (sigma in {1, 1.5, 2}, K = 4) from every mesh within the primitive-bisection budget on five root "
                 "layouts (TLC graph == real graph, graded meshes judged by TLC) and after random histories of up to 200 bisections",
     }
